@@ -62,6 +62,11 @@ pub fn str_len(s: &str) -> (r: usize)
     ensures r == s.spec_bytes().len()
 { s.len() }
 
+#[verifier::external_body]
+pub fn str_char_count(s: &str) -> (r: usize)
+    ensures r == s@.len()
+{ s.chars().count() }
+
 // canonical decimal rendering (what `{}` does for u32)
 pub open spec fn digit(d: nat) -> char { (('0' as u8) + d as u8) as char }
 pub open spec fn dec(n: nat) -> Seq<char>
